@@ -22,17 +22,18 @@ def sh(cmd, **kw):
     return p.returncode, p.stdout.decode(errors='replace')
 
 
-def demo(sdir):
+def demo(sdir, repo=REPO):
     d = os.path.join(sdir, 'demo.py')
-    env = dict(os.environ, PYTHONPATH=REPO, MPLBACKEND='Agg', OMP_NUM_THREADS='4')
+    env = dict(os.environ, PYTHONPATH=repo, MPLBACKEND='Agg', OMP_NUM_THREADS='4')
     try:
-        return sh(['/venv/bin/python', d], cwd=REPO, env=env, timeout=1500)
+        return sh(['/venv/bin/python', d], cwd=repo, env=env, timeout=1500)
     except subprocess.TimeoutExpired:
         return -9, 'timeout'
 
 
 def main():
     args = [a for a in sys.argv[1:] if not a.startswith('--')]
+    # (--worktree: see below)
     props_opt = None
     allp = '--all-props' in sys.argv
     tier = 'quick'
@@ -45,6 +46,39 @@ def main():
             args = [x for x in args if x != tier]
     sroot = os.path.join(ROOT, 'seeded')
     ids = args or sorted(os.listdir(sroot))
+    if '--worktree' in sys.argv:
+        # preliminary mode (used while a long run is live on /repo): the patch is applied in a scratch worktree under /tmp and the
+        # checks import compmech from there (VERIF_REPO); result goes to result_worktree.json, /repo is not touched
+        for sid in ids:
+            sdir = os.path.join(sroot, sid)
+            meta = json.load(open(os.path.join(sdir, 'meta.json')))
+            props = ALL if allp else (props_opt or [meta['property']])
+            wt = '/tmp/rs_' + sid
+            res = {'id': sid, 'property': meta['property'], 'mode': 'scratch worktree', 'checks': {}}
+            try:
+                sh([os.path.join(ROOT, 'tools', 'mk_worktree.sh'), wt])
+                res['demo_clean_rc'] = demo(sdir, wt)[0]
+                rc, out = sh(['git', '-C', wt, 'apply', os.path.join(sdir, 'patch.diff')])
+                if rc:
+                    print(sid, 'PATCH DOES NOT APPLY', out[-200:])
+                    continue
+                res['demo_patched_rc'] = demo(sdir, wt)[0]
+                for p in props:
+                    rcc, outc = sh([os.path.join(ROOT, 'check'), p, '--tier', tier], cwd=ROOT, env=dict(os.environ, VERIF_REPO=wt))
+                    lines = [l for l in outc.splitlines() if l.startswith(('VIOLATION', '  [', 'HARNESS'))]
+                    res['checks'][p] = {'rc': rcc, 'first': lines[:3]}
+            finally:
+                sh(['git', '-C', REPO, 'worktree', 'remove', '--force', wt])
+                sh(['rm', '-rf', wt])
+            json.dump(res, open(os.path.join(sdir, 'result_worktree.json'), 'w'), indent=1)
+            caught = [p for p, r in res['checks'].items() if r['rc'] == 1]
+            print('%-10s %s demo clean=%s patched=%s  caught by: %s%s' % (
+                sid, meta['property'], res.get('demo_clean_rc'), res.get('demo_patched_rc'), ','.join(caught) or '-',
+                '' if meta['property'] in caught else '   <-- MISSED by %s' % meta['property']))
+            for p in caught[:1]:
+                for l in res['checks'][p]['first'][:1]:
+                    print('      ' + l[:220])
+        return
     assert sh(['git', '-C', REPO, 'status', '--porcelain', '--untracked-files=no'])[1].strip() == '', '/repo not clean'
     for sid in ids:
         sdir = os.path.join(sroot, sid)
